@@ -31,6 +31,8 @@ def cancels_in(fn, seen=None):
 
 
 def check(repo: Repo, rep: Report) -> None:
+    from .attr_roles import roles as _roles
+    LP = _roles(repo, AS, "AsyncIOScheduler").by_param_index(0)      # the attribute holding the event loop
     rep.explanation = (
         "Structure of the thread-safe asyncio scheduler's dispose closures: every handle.cancel() reachable from a "
         "dispose closure is either (i) dominated by the predicate _on_self_loop_or_not_running() (we are on the loop "
@@ -38,8 +40,8 @@ def check(repo: Repo, rep: Report) -> None:
         "callback handed to call_soon_threadsafe whose completion the disposer awaits with future.result() before "
         "returning (so once dispose() returned the cancel has happened on the loop thread, after any stage queued "
         "before it). Return-value analysis of the predicate: it may return a truthy constant only on a path dominated "
-        "by `not self._loop.is_running()`; the path on which get_running_loop() raises (a foreign thread while the loop "
-        "runs) must return a falsy constant; every other return is the comparison of self._loop with the running loop. "
+        f"by `not self.{LP}.is_running()`; the path on which get_running_loop() raises (a foreign thread while the loop "
+        f"runs) must return a falsy constant; every other return is the comparison of self.{LP} with the running loop. "
         "Scheduling uses the *_threadsafe entry points; both schedulers pass the delay unchanged and hold the cancel "
         "disposable in the returned composite.")
     rep.assumptions += ["asyncio: callbacks queued with call_soon_threadsafe run in FIFO order on the loop thread",
@@ -68,22 +70,22 @@ def check(repo: Repo, rep: Report) -> None:
                        "while the loop is running) the predicate answers 'on the loop / not running': dispose() then "
                        "cancels handles directly from the foreign thread instead of marshalling, racing the loop thread")
             elif bool(v.value):
-                ok = has_guard(s.ctx, "self._loop.is_running()", False)
+                ok = has_guard(s.ctx, f"self.{LP}.is_running()", False)
                 rep.ob("P1-predicate-returns", pred, f"return {v.value!r}", ok,
-                       "the predicate returns True on a path not dominated by `not self._loop.is_running()`")
+                       f"the predicate returns True on a path not dominated by `not self.{LP}.is_running()`")
             else:
                 rep.ob("P1-predicate-returns", pred, f"return {v.value!r}", True)
         else:
             ok = isinstance(v, ast.Compare) and len(v.ops) == 1 and isinstance(v.ops[0], (ast.Eq, ast.Is)) \
-                and {u(v.left), u(v.comparators[0])} >= {"self._loop"}
+                and {u(v.left), u(v.comparators[0])} >= {f"self.{LP}"}
             other = [x for x in (v.left, v.comparators[0])] if ok else []
             if ok:
-                oth = [x for x in other if u(x) != "self._loop"][0]
+                oth = [x for x in other if u(x) != f"self.{LP}"][0]
                 defs = [d for d in sites(pred) if isinstance(d.node, ast.Assign) and u(d.node.targets[0]) == u(oth)
                         and isinstance(d.node.value, ast.Call) and dotted(d.node.value.func) == "asyncio.get_running_loop"]
                 ok = bool(defs)
             rep.ob("P1-predicate-returns", pred, short(s.node), ok,
-                   "the predicate's answer is not the comparison of self._loop with asyncio.get_running_loop()")
+                   f"the predicate's answer is not the comparison of self.{LP} with asyncio.get_running_loop()")
     rep.require(n_ret >= 3, "return statements of the predicate")
     # P2 -----------------------------------------------------------------
     cls = repo.fn(TS, "AsyncIOThreadSafeScheduler")
@@ -94,7 +96,7 @@ def check(repo: Repo, rep: Report) -> None:
         for g in m.walk():
             if g.is_func:
                 for s in sites(g):
-                    if isinstance(s.node, ast.Call) and (dotted(s.node.func) or "").startswith("self._loop.call_"):
+                    if isinstance(s.node, ast.Call) and (dotted(s.node.func) or "").startswith(f"self.{LP}.call_"):
                         for a in s.node.args:
                             t = resolve_callable(g, a)
                             if t.kind == "fn":
@@ -115,7 +117,7 @@ def check(repo: Repo, rep: Report) -> None:
             # marshalled callbacks: local functions passed to call_soon_threadsafe inside d
             marshalled = {}
             for s in sites(d):
-                if isinstance(s.node, ast.Call) and dotted(s.node.func) == "self._loop.call_soon_threadsafe" and s.node.args:
+                if isinstance(s.node, ast.Call) and dotted(s.node.func) == f"self.{LP}.call_soon_threadsafe" and s.node.args:
                     t = resolve_callable(d, s.node.args[0])
                     if t.kind == "fn":
                         marshalled[t.fn] = s
@@ -170,7 +172,7 @@ def check(repo: Repo, rep: Report) -> None:
                 continue
             for s in sites(g):
                 n = s.node
-                if isinstance(n, ast.Call) and dotted(n.func) in ("self._loop.call_soon", "self._loop.call_later", "self._loop.call_at"):
+                if isinstance(n, ast.Call) and dotted(n.func) in (f"self.{LP}.call_soon", f"self.{LP}.call_later", f"self.{LP}.call_at"):
                     # allowed only inside a callback that itself runs on the loop (passed to call_soon_threadsafe)
                     on_loop = False
                     par = g
@@ -180,14 +182,14 @@ def check(repo: Repo, rep: Report) -> None:
                                 for x in mm.walk():
                                     if x.is_func:
                                         for s2 in sites(x):
-                                            if isinstance(s2.node, ast.Call) and dotted(s2.node.func) == "self._loop.call_soon_threadsafe" \
+                                            if isinstance(s2.node, ast.Call) and dotted(s2.node.func) == f"self.{LP}.call_soon_threadsafe" \
                                                     and s2.node.args and resolve_callable(x, s2.node.args[0]).fn is par:
                                                 on_loop = True
                         par = par.parent if par.parent is not None and par.parent.is_func else None
                     rep.ob("P3-threadsafe-entry", g, short(n, 60), on_loop,
                            f"`{short(n, 60)}` touches the loop from an arbitrary thread (not thread-safe); only "
                            f"call_soon_threadsafe may be used outside loop callbacks")
-                if isinstance(n, ast.Call) and dotted(n.func) == "self._loop.call_soon_threadsafe":
+                if isinstance(n, ast.Call) and dotted(n.func) == f"self.{LP}.call_soon_threadsafe":
                     rep.ob("P3-threadsafe-entry", g, short(n, 60), True)
     # P5: the single-thread scheduler's dispose cancels the handle unconditionally -----------------------------
     rep.rule("P7-shortcut-only-when-due", "schedule_relative takes the immediate path only under a test that bounds the delay by zero", floor=2)
@@ -249,7 +251,7 @@ def check(repo: Repo, rep: Report) -> None:
                 later = []
                 for g in m.walk():
                     if g.is_func:
-                        later += [s for s in sites(g) if isinstance(s.node, ast.Call) and dotted(s.node.func) == "self._loop.call_later"]
+                        later += [s for s in sites(g) if isinstance(s.node, ast.Call) and dotted(s.node.func) == f"self.{LP}.call_later"]
                 ok = bool(secs) and bool(later) and all(u(c.node.args[0]) == u(secs[0].node.targets[0]) for c in later)
                 rep.ob("P4-held-and-delay", m, f"{cname}.{mname}: call_later(to_seconds(duetime), ...)", ok,
                        "the delay handed to the loop is not the requested relative time: the action could run early")
